@@ -212,6 +212,13 @@ def specs(tier):
         out.append((f"string-v{vl}", [("string", 1, vl, 1)]))
         out.append((f"preamble-b{vl}", [("preamble", vl)]))
         out.append((f"comment-b{vl}", [("comment", vl)]))
+    # blanks / tabs between '@type' and '{' (hws of the grammar)
+    for hw in (1, 2):
+        out.append((f"entry1-hw{hw}", [("entry", 1, 1, 2, 0, False, hw)]))
+        out.append((f"entry0-hw{hw}", [("entry", 0, 1, 1, 0, False, hw)]))
+        out.append((f"string-hw{hw}", [("string", 1, 2, 0, hw)]))
+        out.append((f"preamble-hw{hw}", [("preamble", 2, hw)]))
+        out.append((f"comment-hw{hw}", [("comment", 2, hw)]))
     out.append(("preamble-b0", [("preamble", 0)]))
     out.append(("comment-b0", [("comment", 0)]))
     for fl in range(1, (4 if big else 3) + 1):
